@@ -8,7 +8,8 @@
 (* it at len-1 and bisects between the last lag known to be above and the    *)
 (* first known not to be.                                                    *)
 (*                                                                         *)
-(* State: the code's own variables  n, last_n, i  and the program counter.   *)
+(* State: the code's own variables  n, last_n, i  and the program counter    *)
+(* (plus pw = 2^i as a value, which is what the proof module works with).    *)
 (* The bracket update is the REQUIRED one (last_n := life keeps n); the      *)
 (* pinned tree swapped the pair and underflowed n - last_n.                  *)
 (***************************************************************************)
@@ -16,8 +17,9 @@ EXTENDS Values, TLC
 
 CONSTANT MaxLen
 
-VARIABLES len, above, pc, n, last_n, i
-vars == <<len, above, pc, n, last_n, i>>
+VARIABLES len, above, pc, n, last_n, i,
+          pw       \* the lag the doubling phase tries next: 2^i, carried as a value (PwIsPow)
+vars == <<len, above, pc, n, last_n, i, pw>>
 
 Above(k) == k >= 1 /\ k <= len - 1 /\ above[k]
 
@@ -25,23 +27,22 @@ Init ==
     /\ len \in 0..MaxLen
     /\ above \in [1..(len - 1) -> BOOLEAN]
     /\ pc = IF len = 0 THEN "done" ELSE "dbl"
-    /\ n = 0 /\ last_n = 0 /\ i = 0
+    /\ n = 0 /\ last_n = 0 /\ i = 0 /\ pw = 1
 
 \* while n < len { n = 2^i; if !above(n) break; last_n = n; i += 1 }
 Dbl ==
     /\ pc = "dbl"
     /\ IF n < len
-       THEN LET m == IPow(2, i) IN
-            IF Above(m) THEN n' = m /\ last_n' = m /\ i' = i + 1 /\ pc' = "dbl"
-            ELSE n' = m /\ pc' = "cap" /\ UNCHANGED <<last_n, i>>
-       ELSE pc' = "cap" /\ UNCHANGED <<n, last_n, i>>
+       THEN IF Above(pw) THEN n' = pw /\ last_n' = pw /\ i' = i + 1 /\ pw' = 2 * pw /\ pc' = "dbl"
+            ELSE n' = pw /\ pc' = "cap" /\ UNCHANGED <<last_n, i, pw>>
+       ELSE pc' = "cap" /\ UNCHANGED <<n, last_n, i, pw>>
     /\ UNCHANGED <<len, above>>
 
 \* n = min(n, len - 1)
 Cap ==
     /\ pc = "cap"
     /\ n' = Min2(n, len - 1) /\ pc' = "bis"
-    /\ UNCHANGED <<len, above, last_n, i>>
+    /\ UNCHANGED <<len, above, last_n, i, pw>>
 
 \* while n - last_n > 1 { life = (n + last_n) / 2; above(life) ? last_n = life : n = life }
 Bis ==
@@ -52,13 +53,17 @@ Bis ==
             ELSE n' = life /\ UNCHANGED last_n
        ELSE UNCHANGED <<n, last_n>>
     /\ pc' = IF n - last_n > 1 THEN "bis" ELSE "done"
-    /\ UNCHANGED <<len, above, i>>
+    /\ UNCHANGED <<len, above, i, pw>>
 
 Next == Dbl \/ Cap \/ Bis
 Spec == Init /\ [][Next]_vars /\ WF_vars(Next)
 
 (* ---- properties ---------------------------------------------------------------- *)
 
+\* the doubling phase tries the lags 1, 2, 4, ...: pw is the code's 2^i.  (HalfLifeProof.tla carries the same three
+\* actions - length and pattern as constants, pw in place of 2^i - and proves NoUnderflow, BracketInv, InRange and
+\* the shrinking bracket for EVERY length and pattern with the TLA+ proof system.)
+PwIsPow == pw = IPow(2, i)
 \* the subtraction n - last_n is on unsigned integers
 NoUnderflow == pc = "bis" => n >= last_n
 \* the bracket: everything up to last_n is known above only at last_n itself; n is not above or is the cap
